@@ -2,10 +2,12 @@ package main
 
 import (
 	"encoding/json"
+	"errors"
 	"fmt"
 	"hash/fnv"
 	"runtime"
 	"sort"
+	"sync"
 
 	"reduction.dev/reduction/dkv"
 	"reduction.dev/reduction/dkv/recovery"
@@ -34,6 +36,7 @@ type liveDB struct {
 	listURI string // URI of its latest saved `checkpoints` file ("" = none saved yet)
 	model   *lib.RefMap
 	own     func(k []byte) bool
+	late    *lateOwn
 }
 
 type refMon struct {
@@ -124,7 +127,9 @@ func c09Single(c *lib.Ctx) {
 	mon := &refMon{c: c, gfs: e.gfs, firstSig: map[string]string{}}
 	me := &liveDB{name: "db", db: e.db, model: e.model}
 	live := []*liveDB{me}
-	wit := func() map[string]any { return e.wit("fs_log_tail", fmtLog(e.gfs.Log(), e.gfs.LogLen()-30, e.gfs.LogLen())) }
+	wit := func() map[string]any {
+		return e.wit("fs_log_tail", fmtLog(e.gfs.Log(), e.gfs.LogLen()-30, e.gfs.LogLen()))
+	}
 	var cks []*ckpt
 	nsteps := 80 + r.Intn(250)
 	for step := 0; step < nsteps; step++ {
@@ -204,9 +209,46 @@ func c09Single(c *lib.Ctx) {
 // exclusively owned unless a live peer still needs it (peer.NeedsTable).
 type shareOwn struct {
 	idx, n int
+	owns   func(k []byte) bool // when set: replaces the idx/n share (a database that took over several shares)
 	peers  func() []*liveDB
 	self   func() *liveDB
 	asked  *int64
+}
+
+// tablesOfHandle: the table files the checkpoint behind a handle references (read from its checkpoints file).
+func tablesOfHandle(gfs *lib.GateFS, h recovery.CheckpointHandle) []string {
+	content, ok := gfs.Content(h.URI)
+	if !ok {
+		return nil
+	}
+	var doc ckptDoc
+	lib.Must(json.Unmarshal(content, &doc))
+	var out []string
+	for _, cp := range doc.Checkpoints {
+		if cp.ID != h.CheckpointID {
+			continue
+		}
+		for _, lvl := range cp.Levels {
+			for _, t := range lvl {
+				out = append(out, t.URI)
+			}
+		}
+	}
+	return out
+}
+
+// checkNeedsRestored: a database that was opened from checkpoint handles and has not taken a checkpoint of its
+// own yet answers NeedsTable with true for every table those checkpoints reference (it is the only thing that
+// keeps a neighbour from deleting them).
+func checkNeedsRestored(c *lib.Ctx, gfs *lib.GateFS, l *liveDB, hs []recovery.CheckpointHandle, wit func() map[string]any) {
+	for i, h := range hs {
+		for _, uri := range tablesOfHandle(gfs, h) {
+			if !l.db.NeedsTable(uri) {
+				c.Fail("needs-table-false-for-restored-table", wit(), "%s was opened from %d checkpoint handle(s); NeedsTable(%s) is false although checkpoint %d of handle #%d (%s) references that table and is this database's only recovery point", l.name, len(hs), uri, h.CheckpointID, i+1, h.URI)
+			}
+			c.Feat("needs_table_answers_checked", 1)
+		}
+	}
 }
 
 func ownerOf(k []byte, n int) int {
@@ -215,7 +257,12 @@ func ownerOf(k []byte, n int) int {
 	return int(h.Sum32() % uint32(n))
 }
 
-func (s *shareOwn) OwnsKey(key []byte) bool { return ownerOf(key, s.n) == s.idx }
+func (s *shareOwn) OwnsKey(key []byte) bool {
+	if s.owns != nil {
+		return s.owns(key)
+	}
+	return ownerOf(key, s.n) == s.idx
+}
 
 func (s *shareOwn) ExclusivelyOwnsTable(uri string, startKey, endKey []byte) (bool, error) {
 	*s.asked++
@@ -235,7 +282,9 @@ func c09Shared(c *lib.Ctx) {
 	defer e.close()
 	r := e.r
 	mon := &refMon{c: c, gfs: e.gfs, firstSig: map[string]string{}}
-	wit := func() map[string]any { return e.wit("fs_log_tail", fmtLog(e.gfs.Log(), e.gfs.LogLen()-30, e.gfs.LogLen())) }
+	wit := func() map[string]any {
+		return e.wit("fs_log_tail", fmtLog(e.gfs.Log(), e.gfs.LogLen()-30, e.gfs.LogLen()))
+	}
 	// phase 1: the source database builds state reaching SST files, takes checkpoint N
 	for i := 30 + r.Intn(150); i > 0; i-- {
 		e.randomWrite()
@@ -271,6 +320,7 @@ func c09Shared(c *lib.Ctx) {
 		e.logOp("restore(%d) into %s owning share %d/%d", src.id, dir, i, n)
 		l.db = dkv.Open(opts, []recovery.CheckpointHandle{*src.h})
 		live = append(live, l)
+		checkNeedsRestored(c, e.gfs, l, []recovery.CheckpointHandle{*src.h}, wit)
 	}
 	if dropSource {
 		// in-place redeploy: the previous database object of the process is dropped once its successors are
@@ -392,6 +442,114 @@ func c09Shared(c *lib.Ctx) {
 			readShare(l, "during history")
 		}
 	}
+	// phase 4 (half of the cases): scale-in. Every database takes one more checkpoint and dies (a dead process:
+	// pinned, none of its cleanups runs). With three databases d1,d2,d3 two successors take over: A, in another
+	// process (its table objects do not count as references here), opened from the checkpoints of d1 and d2, and B,
+	// in this process, opened from those of d2 and d3 — so A and B share d2's tables, which A knows from its SECOND
+	// handle. B works on, compacts shared tables away, its table objects are collected and its cleanups ask A.
+	// With two databases one successor is opened from both checkpoints.
+	if len(live) >= 2 && r.Intn(2) == 0 {
+		id := nextID
+		nextID++
+		for _, d := range live {
+			e.logOp("%s.checkpoint(%d)", d.name, id)
+			h, err := d.db.Checkpoint(id)()
+			if err != nil {
+				c.Fail("checkpoint-error", wit(), "%s checkpoint %d: %v", d.name, id, err)
+			}
+			d.listURI = h.URI
+			kept[d] = append(kept[d], id)
+		}
+		for _, d := range live {
+			e.waitDB(d.db)
+			e.pinned = append(e.pinned, d.db) // dead process
+		}
+		old := lib.Shuffled(r, live)
+		handle := func(d *liveDB) recovery.CheckpointHandle {
+			return recovery.CheckpointHandle{CheckpointID: id, URI: d.listURI}
+		}
+		successor := func(otherProcess bool, own func(k []byte) bool, srcs ...*liveDB) *liveDB {
+			view, dir := e.fsView(false)
+			names := ""
+			var hs []recovery.CheckpointHandle
+			mg := &liveDB{model: lib.NewRefMap(), own: own}
+			for i, d := range srcs {
+				if i > 0 {
+					names += "+"
+				}
+				names += d.name
+				hs = append(hs, handle(d))
+			}
+			mg.name = dir + " (from " + names + ")"
+			if otherProcess {
+				view = view.AsOtherProcess()
+				mg.name += " in another process"
+			}
+			return openSuccessor(e, c, mg, view, hs, wit)
+		}
+		var next []*liveDB
+		if len(old) >= 3 {
+			d1, d2, d3 := old[0], old[1], old[2]
+			// ownership of keys: A takes d1's and d2's share, B d3's (d2's rows in B are foreign rows of a shared table)
+			a := successor(true, func(k []byte) bool { return d1.own(k) || d2.own(k) }, d1, d2)
+			b := successor(false, d3.own, d2, d3)
+			for _, kv := range d1.model.All() {
+				a.model.Put(kv.K, kv.V)
+			}
+			for _, kv := range d2.model.All() {
+				a.model.Put(kv.K, kv.V)
+			}
+			for _, kv := range d3.model.All() {
+				b.model.Put(kv.K, kv.V)
+			}
+			next = []*liveDB{a, b}
+		} else {
+			d1, d2 := old[0], old[1]
+			m := successor(r.Intn(2) == 0, func(k []byte) bool { return d1.own(k) || d2.own(k) }, d1, d2)
+			for _, kv := range d1.model.All() {
+				m.model.Put(kv.K, kv.V)
+			}
+			for _, kv := range d2.model.All() {
+				m.model.Put(kv.K, kv.V)
+			}
+			next = []*liveDB{m}
+		}
+		live = next
+		for _, l := range live {
+			l := l
+			l.late.mu.Lock()
+			l.late.p = &shareOwn{owns: l.own, peers: func() []*liveDB { return live }, self: func() *liveDB { return l }, asked: &asked}
+			l.late.mu.Unlock()
+		}
+		e.logOp("scale-in: %d dead databases, successors %v", len(old), len(live))
+		mon.check("after scale-in", live, wit)
+		// the successor in this process works on until it has compacted and dropped tables
+		w := live[len(live)-1]
+		for i := 60 + r.Intn(200); i > 0; i-- {
+			var ownKeys [][]byte
+			for _, k := range e.keys {
+				if w.own(k) {
+					ownKeys = append(ownKeys, k)
+				}
+			}
+			if len(ownKeys) == 0 {
+				break
+			}
+			k := lib.Pick(r, ownKeys)
+			v := e.vg.Next(r, 20)
+			w.db.Put(k, v)
+			w.model.Put(k, v)
+		}
+		for _, d := range live {
+			e.waitDB(d.db)
+		}
+		e.gcSettle()
+		mon.check("after scale-in, more writes and forced GC", live, wit)
+		for _, d := range live {
+			readShare(d, "after scale-in and forced GC")
+		}
+		c.Feat("scale_in_merges", 1)
+	}
 	for _, d := range live {
 		e.waitDB(d.db)
 	}
@@ -407,6 +565,39 @@ func c09Shared(c *lib.Ctx) {
 		c.Sample(map[string]any{"family": "shared restore", "options": e.o, "databases": n, "ops_prefix": firstN(e.ops, 30), "total_ops": len(e.ops)})
 	}
 	runtime.KeepAlive(live)
+}
+
+// openSuccessor opens a database from several checkpoint handles and checks its NeedsTable answers.
+func openSuccessor(e *env, c *lib.Ctx, mg *liveDB, view *lib.GateFS, hs []recovery.CheckpointHandle, wit func() map[string]any) *liveDB {
+	opts := e.dbOpts(view)
+	own := &lateOwn{owns: mg.own}
+	opts.DataOwnership = own
+	e.logOp("open %s from %d checkpoint handles", mg.name, len(hs))
+	mg.db = dkv.Open(opts, hs)
+	mg.late = own
+	checkNeedsRestored(c, e.gfs, mg, hs, wit)
+	return mg
+}
+
+// lateOwn is a DataOwnership whose policy is installed after the database was opened (the successors of a
+// scale-in refer to each other).
+type lateOwn struct {
+	mu   sync.Mutex
+	owns func(k []byte) bool
+	p    *shareOwn
+}
+
+func (l *lateOwn) get() *shareOwn {
+	l.mu.Lock()
+	defer l.mu.Unlock()
+	return l.p
+}
+func (l *lateOwn) OwnsKey(k []byte) bool { return l.owns(k) }
+func (l *lateOwn) ExclusivelyOwnsTable(uri string, s, e []byte) (bool, error) {
+	if p := l.get(); p != nil {
+		return p.ExclusivelyOwnsTable(uri, s, e)
+	}
+	return false, errors.New("verif: ownership not decided yet")
 }
 
 // ---------------------------------------------------------------- known-finding reproducer
